@@ -76,6 +76,11 @@ def gen(rng, tier):
     for vals in ([5, 10, 15], [-2, -1, 0, 1], [8, 9, 10, 11], [100, 20, 3]):
         for w in ("C", "T", "S", "C-sum"):
             cases.append({"kind": "numlevels", "values": vals, "wrapper": w, "seed": rng.randrange(10 ** 6)})
+    # a factor whose values are nanosecond time stamps / durations, coded through C / T / S without levels=: the levels
+    # are the distinct values in time order (decided by the oracle: the model has no time values)
+    for unit in ("datetime64[ns]", "timedelta64[ns]", "datetime64[s]"):
+        for w in ("C", "T", "S", "C-sum"):
+            cases.append({"kind": "timelevels", "unit": unit, "wrapper": w, "seed": rng.randrange(10 ** 6)})
     # levels= with a repeated entry is refused (a level list names every level once)
     for dup in (["a", "b", "a"], ["a", "b", "c", "b"], ["c", "c", "a", "b"], ["a", "a"]):
         for w in ("C", "T", "S", "C-sum"):
@@ -94,8 +99,27 @@ def describe(c, mo, obs):
     return c["kind"] + ("/" + c.get("enc", "") + ("/reused" if c.get("prior") else "") if c["kind"] == "direct" else "")
 
 
+def _time_frame(c):
+    import random
+    import numpy as np
+    import pandas as pd
+    rng = random.Random(c["seed"])
+    k = rng.choice([3, 4])
+    n = rng.randint(k + 2, 10)
+    codes = list(range(k)) + [rng.randrange(k) for _ in range(n - k)]
+    rng.shuffle(codes)
+    base = np.array([86400 * 10 ** 9 * (3 * j + 1) + 17 * j for j in range(k)], dtype="int64")   # distinct, ascending
+    vals = base[codes]
+    t = vals.astype("datetime64[ns]").astype(c["unit"]) if c["unit"].startswith("datetime") else vals.astype(c["unit"])
+    df = pd.DataFrame({"y": [float(rng.randint(-5, 5)) for _ in range(n)], "q": t})
+    call = {"C": "C(q)", "T": "T(q)", "S": "S(q)", "C-sum": "C(q, Sum)"}[c["wrapper"]]
+    return df, "y ~ " + call, codes, k
+
+
 def model_cmd(c):
     import core
+    if c["kind"] == "timelevels":
+        c = {"kind": "direct", "enc": "treatment", "ref": None, "spans": "reduced", "levels": ["a", "b"]}   # placeholder
     if c["kind"] == "direct":
         return core.sshow(["code", c["enc"], [] if c["ref"] is None else str(c["ref"]), c["spans"],
                            [str(x) for x in c["levels"]]])
@@ -185,6 +209,13 @@ def _mk_enc(c):
 
 def impl_obs(c):
     import numpy as np
+    if c["kind"] == "timelevels":
+        from formulae import design_matrices
+        df, f, codes, k = _time_frame(c)
+        try:
+            return ["ok", dm._rows(design_matrices(f, df).common.design_matrix)]
+        except Exception as e:  # noqa
+            return ["err", type(e).__name__, str(e)[:100]]
     if c["kind"] == "direct":
         enc = _mk_enc(c)
         try:
@@ -200,6 +231,8 @@ def impl_obs(c):
 
 
 def compare(c, mo, obs):
+    if c["kind"] == "timelevels":
+        return None
     if mo[0] == "err" and len(mo) > 1 and mo[1] == "Unsupported":
         return None
     if mo[0] != obs[0]:
@@ -307,6 +340,25 @@ def oracle(c):
         if labs != want:
             return (f"{f!r} on values {sorted(set(c['values']))}: columns {labs}, expected {want} (numeric order; the first "
                     f"level is the default reference, sum omits the last)")
+        return None
+    if c["kind"] == "timelevels":
+        from formulae import design_matrices
+        df, f, codes, k = _time_frame(c)
+        try:
+            d = design_matrices(f, df)
+        except Exception as e:
+            return f"{f!r} on a {c['unit']} factor raises {type(e).__name__}: {str(e)[:80]}"
+        M = np.asarray(d.common.design_matrix, dtype=float)[:, 1:]
+        if M.shape[1] != k - 1:
+            return f"{f!r} on a {c['unit']} factor with {k} distinct values: {M.shape[1]} contrast columns"
+        for i, code in enumerate(codes):
+            if c["wrapper"] in ("C", "T"):
+                want = [1.0 if code == j else 0.0 for j in range(1, k)]
+            else:
+                want = [-1.0] * (k - 1) if code == k - 1 else [1.0 if code == j else 0.0 for j in range(k - 1)]
+            if M[i].tolist() != want:
+                return (f"{f!r} on a {c['unit']} factor: row {i} (value number {code} in time order) is coded {M[i].tolist()}, "
+                        f"the {'treatment' if c['wrapper'] in ('C', 'T') else 'sum'} coding over the time-ordered levels gives {want}")
         return None
     if c["kind"] == "levels":
         f, fr, extra = _design_case(c)
